@@ -1446,10 +1446,25 @@ func (x *g) forStmt(d int) string {
 		init += "," + x.s() + v + "=" + ie
 	}
 	upd := x.pick("forupd", []string{nm + "++", "++" + nm, nm + "+=1", nm + "=" + nm + "+1"})
+	pre := ""
+	if x.es(2015) && x.chance("forinarrow", 5) {
+		// an arrow function with a concise body that uses the in operator, in or right in front of the for initialiser
+		// (a var statement in front of a loop is merged into its head): the body needs parentheses there
+		x.feat("in-operator-in-arrow-near-for-init")
+		f := x.freshName(kind)
+		x.declare(f, kind, tAny, false)
+		arrow := "k" + x.s() + "=>" + x.s() + "k in" + x.s() + "[7,8]"
+		if kind == "var" && x.chance("beforeloop", 2) {
+			pre = "var " + f + "=" + arrow + ";"
+		} else {
+			init += "," + x.s() + f + "=" + arrow
+		}
+		upd += "," + "$(" + f + "(" + nm + "))"
+	}
 	x.loops++
 	body := x.subStmt(d - 1)
 	x.loops--
-	return "for" + x.s() + "(" + x.s() + init + x.s() + ";" + x.s() + nm + x.s() + "<" + x.s() + bound + ";" + x.s() + upd + x.s() + ")" + x.s() + body
+	return pre + "for" + x.s() + "(" + x.s() + init + x.s() + ";" + x.s() + nm + x.s() + "<" + x.s() + bound + ";" + x.s() + upd + x.s() + ")" + x.s() + body
 }
 
 func (x *g) whileStmt(d int) string {
